@@ -18,14 +18,14 @@
 namespace deps {
 
 struct KdfCall {
-    std::vector<uint8_t> pw, salt; size_t pwlen = 0, saltlen = 0; uint64_t iterations = 0; uint8_t* key = nullptr; size_t keylen = 0;
+    std::vector<uint8_t> pw, salt; size_t pwlen = 0, saltlen = 0; uint64_t iterations = 0; uint8_t* key = nullptr; size_t keylen = 0; std::vector<uint8_t> out;   /* first 64 bytes of what was delivered */
     const uint8_t* pw_ptr = nullptr;
 };
 struct Block { size_t size; uint64_t serial; size_t mz_at_alloc = 0; };   // mz_at_alloc: number of logged wipe calls when the block was handed out
 struct Freed { void* ptr; size_t size; std::vector<uint8_t> content; size_t mz_index; size_t mz_at_alloc = 0; };
 struct MzCall { void* ptr; size_t len; };
 
-enum KdfMode { KDF_FIXED, KDF_MIX, KDF_NOTOUCH };
+enum KdfMode { KDF_FIXED, KDF_MIX, KDF_NOTOUCH, KDF_ECHO };   // KDF_ECHO: the derived key happens to equal what the output buffer held before the call (recorded in KdfCall::out)
 
 // libc interposition counters (only meaningful in binaries linked with -Wl,--wrap=malloc,--wrap=free,--wrap=time; see props/c18)
 struct Wrap { bool enabled = false; bool window = false; int in_stub = 0; uint64_t malloc_calls = 0, free_calls = 0, time_calls = 0; bool fake = false; uint64_t fake_time = 0;
@@ -90,7 +90,7 @@ inline void maybe_yield(Kit& k);
 
 // ------------------------------------------------------------------ implementations
 inline void kdf_fill(const Kit& k, const uint8_t* pw, size_t pwlen, const uint8_t* salt, size_t saltlen, uint8_t* key, size_t keylen) {
-    if (k.kdf_mode == KDF_NOTOUCH) return;
+    if (k.kdf_mode == KDF_NOTOUCH || k.kdf_mode == KDF_ECHO) return;
     if (k.kdf_mode == KDF_FIXED) { for (size_t i = 0; i < keylen; i++) key[i] = k.kdf_fixed[i % 32]; return; }
     uint64_t h = vf::fnv1a(pw, pwlen, 1469598103934665603ull ^ k.kdf_key_salt); h = vf::fnv1a(salt, saltlen, h ^ 0x5bd1e995u);
     for (size_t i = 0; i < keylen; i++) { if (i % 8 == 0) h = vf::mix64(h + i); key[i] = (uint8_t)(h >> (8 * (i % 8))); }
@@ -107,10 +107,11 @@ template <int S> void f_pbkdf2(const uint8_t* pw, size_t pwlen, const uint8_t* s
     StubScope sc_; Kit& k = kit(S); maybe_yield(k);
     /* PBKDF2 XOR-accumulates its blocks: like such implementations the stub clears the output before it reads password and
        salt, so a library that passes overlapping buffers gets what a real KDF would give, not a tolerant copy */
-    if (k.kdf_mode != KDF_NOTOUCH && keylen <= 4096) memset(key, 0, keylen);
+    if (k.kdf_mode != KDF_NOTOUCH && k.kdf_mode != KDF_ECHO && keylen <= 4096) memset(key, 0, keylen);
     KdfCall c; c.pwlen = pwlen; c.saltlen = saltlen; c.iterations = it; c.key = key; c.keylen = keylen; c.pw_ptr = pw;
     c.pw.assign(pw, pw + (pwlen < 4096 ? pwlen : 4096)); c.salt.assign(salt, salt + (saltlen < 4096 ? saltlen : 4096));
     kdf_fill(k, pw, pwlen, salt, saltlen, key, keylen);
+    if (k.kdf_mode != KDF_NOTOUCH) c.out.assign(key, key + (keylen < 64 ? keylen : 64));
     k.kdf.push_back(std::move(c));
 }
 template <int S> void f_memzero(void* const p, const size_t n) {
